@@ -504,6 +504,17 @@ The what argument tells us what sort of state is expected (allowed values are de
 
         return db
 
+    def _readDatabase(self, eupsPathDir, flavor, noCache=False):
+        """
+        must a question about the products of a stack, for a flavor, be answered from the database files
+        rather than from the product cache?  It must when the caller says so, when there is no cache for the
+        stack, and when the cache was not loaded for that flavor: the cache is loaded for the flavors this
+        instance needs (its own and the fallbacks), and a flavor that was not loaded has no product in it,
+        which does not mean that none is declared.
+        """
+        return noCache or eupsPathDir not in self.versions or not self.versions[eupsPathDir] or \
+               not self.versions[eupsPathDir].hasFlavor(flavor)
+
     def _userStackCache(self, eupsPathDir):
         if not self.userDataDir:
             return None
@@ -872,7 +883,7 @@ The what argument tells us what sort of state is expected (allowed values are de
                 #
                 vroTag = "version"
                 for root in eupsPathDirs:
-                    if noCache or root not in self.versions or not self.versions[root]:
+                    if self._readDatabase(root, flavor, noCache):
                         # go directly to the EUPS database
                         if not os.path.exists(self.getUpsDB(root)):
                             if self.verbose:
@@ -1065,7 +1076,7 @@ The what argument tells us what sort of state is expected (allowed values are de
 
         # search path for an explicit version
         for root in eupsPathDirs:
-            if noCache or root not in self.versions or not self.versions[root]:
+            if self._readDatabase(root, flavor, noCache):
                 # go directly to the EUPS database
                 if not os.path.exists(self.getUpsDB(root)):
                     if self.verbose:
@@ -1153,7 +1164,7 @@ The what argument tells us what sort of state is expected (allowed values are de
             return out
 
         for root in eupsPathDirs:
-            if noCache or root not in self.versions or not self.versions[root]:
+            if self._readDatabase(root, flavor, noCache):
                 # go directly to the EUPS database
                 if not os.path.exists(self.getUpsDB(root)):
                     if self.verbose:
@@ -1286,7 +1297,7 @@ The what argument tells us what sort of state is expected (allowed values are de
         out = None
 
         for root in eupsPathDirs:
-            if noCache or root not in self.versions or not self.versions[root]:
+            if self._readDatabase(root, flavor, noCache):
                 # go directly to the EUPS database
                 if not os.path.exists(self.getUpsDB(root)):
                     if self.verbose:
@@ -1339,7 +1350,7 @@ The what argument tells us what sort of state is expected (allowed values are de
         out = []
         outver = []
         for root in eupsPathDirs:
-            if noCache or root not in self.versions or not self.versions[root]:
+            if self._readDatabase(root, flavor, noCache):
                 # go directly to the EUPS database
                 if not os.path.exists(self.getUpsDB(root)):
                     if self.verbose:
